@@ -296,4 +296,33 @@ theorem rePrefix_word (w s : List Char) (c : Caps) (K : List Char → Caps → O
     rw [List.nil_append, starM_any_cons, hsp, prefK_cs]; exact hK
   | cons a w ih => rw [List.cons_append, starM_any_cons, ih]
 
+/-- the literal occurs nowhere iff `search` does not find it -/
+theorem noLit_iff_search (l s : List Char) : noLit l s ↔ (Re.lit l).search s = false := by
+  have hp : ∀ t : List Char, ((Re.lit l).pmatch t).isSome = (stripPrefix l t).isSome := by
+    intro t
+    simp only [Re.pmatch, Re.m]
+    cases stripPrefix l t <;> rfl
+  induction s with
+  | nil =>
+    simp only [Re.search, hp]
+    constructor
+    · intro h; have := h 0; simp only [List.drop_nil] at this; simp [this]
+    · intro h i; simp only [List.drop_nil]; cases hs : stripPrefix l [] with
+      | none => rfl
+      | some r => simp [hs] at h
+  | cons c cs ih =>
+    simp only [Re.search, hp, Bool.or_eq_false_iff]
+    constructor
+    · intro h
+      refine ⟨?_, ih.mp (fun i => by simpa using h (i + 1))⟩
+      have := h 0; simp only [List.drop_zero] at this; simp [this]
+    · intro ⟨h0, h1⟩ i
+      cases i with
+      | zero =>
+        simp only [List.drop_zero]
+        cases hs : stripPrefix l (c :: cs) with
+        | none => rfl
+        | some r => simp [hs] at h0
+      | succ j => simpa using ih.mpr h1 j
+
 end RB.Adapters
